@@ -9,7 +9,7 @@ LEVEL = "proof"
 META = {
     "category": "proof",
     "text": "Coq refinement proof: a pointer-level model of starlark/hashtable.go (chains of 8-slot buckets, overflow buckets, insert scanning the whole chain and reusing the last empty slot, the overloaded test and grow = rehash in list order, delete unlinking through prevLink / moving tailLink / zeroing the slot, clear, lookup, first, items, len; the insertion-order doubly linked list as next/prevLink/head/tailLink pointers in a store) refines an ordered association list for EVERY hash function (Section variable, hash 0 remapped as in the code) and every operation history (induction over the operation list), including the derived operations pop/popitem/setdefault/update/Dict.Union, Set union/intersection/difference/symmetric_difference and issubset/issuperset (hashtable.count) built from the table operations. The model is hand-written and tied to /repo on every run: the real Dict/Set are driven through the Go API and through Starlark methods/operators with keys whose Hash() the generator chooses; exhaustive histories over 5 keys of which 3 share a hash and long random histories under adversarial hash distributions are compared after every operation with a naive association list in Go, and a sample of histories is evaluated inside Coq (vm_compute) against Concrete.v (correspondence) and Spec.v (oracle).",
-    "note": "Trusted: Coq kernel + vm_compute; the correspondence harness, its generators and its Go association list; the model abstracts Go's heap to a store indexed by (chain, slot index), uint32 len/hash wrap-around, Equal/Hash errors and the frozen/itercount guards (C04/C06) -- see coq/C12/Concrete.v header. Exhaustive enumeration to length 7 uses the core alphabet (insert/delete x 5 keys, popfirst, clear) through the Go API; the full alphabet with the derived operations goes to length 6 (Go API) / 5 (Starlark) because of the time limit.",
+    "note": "Trusted: Coq kernel + vm_compute; the correspondence harness, its generators and its Go association list; the model abstracts Go's heap to a store indexed by (chain, slot index), uint32 len/hash wrap-around, Equal/Hash errors and the frozen/itercount guards (C04/C06) -- see coq/C12/Concrete.v header. Exhaustive enumeration to length 7 uses the core alphabet (insert/delete x 5 keys, popfirst, clear) through the Go API; the full alphabet with the derived operations goes to length 6 (dict, Go API) / 5 (set; Starlark route) because of the time limit.",
     "technique": "Coq refinement proof over an executable pointer-level model + exhaustive and random differential runs against an association list + vm_compute correspondence and Spec.v oracle",
 }
 
@@ -152,7 +152,7 @@ def plan(ctx):
             exh(kind, "star", "prefill", "core", 3)
         else:
             exh(kind, "go", "zero3", "core", 7)
-            exh(kind, "go", "zero3", "full", 6)
+            exh(kind, "go", "zero3", "full", 6 if kind == "dict" else 5)
             exh(kind, "star", "zero3", "core", 6)
             exh(kind, "star", "zero3", "full", 5)
             exh(kind, "go", "same5", "full", 5)
@@ -167,6 +167,7 @@ def plan(ctx):
                 jobs.append(("rand %s/%s" % (kind, route), ["random", "-kind", kind, "-route", route, "-n", n, "-ops", "1200", "-seed", seed], 300))
             else:
                 jobs.append(("rand %s/%s" % (kind, route), ["random", "-kind", kind, "-route", route, "-n", "14", "-ops", "10000", "-seed", seed], 840))
+    jobs.append(("programs", ["programs", "-n", "300" if q else "4000", "-maxops", "30", "-seed", seed], 600))
     jobs.append(("sample", ["sample", "-n", "70" if q else "1200", "-maxops", "30" if q else "40", "-seed", seed], 300))
     return jobs
 
@@ -220,7 +221,7 @@ def run(ctx):
                 # a crash / timeout of the harness on this tree is itself an observation
                 ctx.broken("harness:" + name, "harness exited with %s: %s" % (rc, err[-600:]))
             ctx.log("%-34s %s" % (name, "; ".join(
-                "%s histories, %s mismatches" % (l.get("histories"), l.get("mismatches")) for l in lines if l.get("kind") in ("exh", "rand")) or "%d lines" % len(lines)))
+                "%s histories, %s mismatches" % (l.get("histories"), l.get("mismatches")) for l in lines if l.get("kind") in ("exh", "rand", "prog")) or "%d lines" % len(lines)))
 
     dist = {}
     evaluations = 0
@@ -240,7 +241,7 @@ def run(ctx):
                 ctx.finding(key, what, {"how": "echo '<this object>' | build/<key>/bin/c12 replay", "tkind": l["tkind"], "route": l["route"],
                                         "hashes": l["hashes"], "init": l["init"], "ops": ops, "at": l.get("at"),
                                         "got": l.get("got"), "want": l.get("want"), "msg": l.get("msg")})
-            elif k in ("exh", "rand"):
+            elif k in ("exh", "rand", "prog"):
                 dist[name] = l.get("histories", 0)
                 histories += l.get("histories", 0)
                 evaluations += l.get("op_executions", 0)
@@ -301,7 +302,7 @@ def run(ctx):
     cov = {
         "evaluations": evaluations + sum(len(h["ops"]) for h in good),
         "distinct_nontrivial": histories + nontrivial,
-        "rule": "every operation history up to the stated length over 5 keys (3 sharing one hash; configurations zero3 = shared hash 0, same5 = all five equal, prefill = the 3 keys share the hash of 7 resident keys of which 2 were deleted) is enumerated, each distinct; alphabets: core = insert/delete x 5 keys, popfirst, clear; full = core + setdefault x 5, update, union (dict) / update, union, intersection, difference, symmetric_difference by method with duplicates and by operator (set); for sets issubset / issuperset / the six comparison operators are queried after the last operation as well; compared with a Go association list after the last operation of every history (all prefixes are histories too): output, len, item order, lookup of all 5 keys; random histories: compared after every operation; sample histories: every observation evaluated in Coq against Concrete.v and Spec.v. distinct_nontrivial = enumerated histories + random histories + sample histories with >= 5 operations",
+        "rule": "every operation history up to the stated length over 5 keys (3 sharing one hash; configurations zero3 = shared hash 0, same5 = all five equal, prefill = the 3 keys share the hash of 7 resident keys of which 2 were deleted) is enumerated, each distinct; alphabets: core = insert/delete x 5 keys, popfirst, clear; full = core + setdefault x 5, update, union (dict) / update, union, intersection, difference, symmetric_difference by method with duplicates and by operator (set); for sets issubset / issuperset / the six comparison operators are queried after the last operation as well; compared with a Go association list after the last operation of every history (all prefixes are histories too): output, len, item order, lookup of all 5 keys; random histories: compared after every operation; programs: histories written as Starlark source over built-in key types (short / long strings, small / big ints, tuples, None, True) including keyword arguments of dict.update, executed by the interpreter, items compared after every statement; sample histories: every observation evaluated in Coq against Concrete.v and Spec.v. distinct_nontrivial = enumerated histories + random histories + sample histories with >= 5 operations",
         "samples": samples, "distribution": dist, "structure_coverage": cover,
         "histories": histories + len(good),
         "model_mismatches": len(bad_model), "spec_mismatches": len(bad_spec),
